@@ -66,6 +66,15 @@ def rnd(it, r):
             raise Unsupported("float overflow on constant")
         return c
     f = FL(r)  # functional: equal exact values round to equal doubles
+    if z3.is_app_of(r, z3.Z3_OP_DIV) and not z3.is_rational_value(r.arg(1)) and not z3.is_int_value(r.arg(1)):
+        # a quotient with a symbolic divisor: keep the query linear -- only the sign facts
+        # (cross-multiplied) here; comparisons with constants are characterised exactly
+        # by _mono().  Fewer facts: a sound over-approximation of the rounded value.
+        num, den = r.arg(0), r.arg(1)
+        nonneg = z3.Or(z3.And(num >= 0, den > 0), z3.And(num <= 0, den < 0))
+        nonpos = z3.Or(z3.And(num <= 0, den > 0), z3.And(num >= 0, den < 0))
+        ex.add_fact(z3.And(z3.Implies(nonneg, f >= 0), z3.Implies(nonpos, f <= 0)))
+        return SFloat(f, exact=r)
     ar = z3.If(r >= 0, r, -r)
     ex.add_fact(z3.And(f - r <= EPS * ar + TINY, r - f <= EPS * ar + TINY))
     ex.add_fact(z3.And(z3.Implies(r >= 0, f >= 0), z3.Implies(r <= 0, f <= 0)))
@@ -199,8 +208,19 @@ def _mono(it, x, c):
         import struct
         even = (struct.unpack("<Q", struct.pack("<d", c))[0] & 1) == 0
         r, f = x.exact, x.t
-        ge = z3.Or(r > m_lo, z3.And(r == m_lo, z3.BoolVal(even)))
-        le = z3.Or(r < m_hi, z3.And(r == m_hi, z3.BoolVal(even)))
+
+        def cmp(op, m):
+            # r <op> m; a quotient num/den is compared by cross-multiplication (keeps the
+            # fact linear when the divisor is symbolic: den != 0 was decided at the division)
+            if z3.is_app_of(r, z3.Z3_OP_DIV):
+                num, den = r.arg(0), r.arg(1)
+                pos = {">": num > m * den, "<": num < m * den, "==": num == m * den}[op]
+                neg = {">": num < m * den, "<": num > m * den, "==": num == m * den}[op]
+                return z3.If(den > 0, pos, neg)
+            return {">": r > m, "<": r < m, "==": r == m}[op]
+
+        ge = z3.Or(cmp(">", m_lo), z3.And(cmp("==", m_lo), z3.BoolVal(even)))
+        le = z3.Or(cmp("<", m_hi), z3.And(cmp("==", m_hi), z3.BoolVal(even)))
         it.ex.add_fact(z3.And((f >= ct) == ge, (f <= ct) == le))
 
 
